@@ -13,7 +13,7 @@ REAL = ["train_* routines", "replay buffers", "losses/optimisers/target updates"
 STUB = ["environment (SimEnv)", "action-space sampler (recording subclass of the real space)", "networks are real tiny MLPs with probes"]
 ASSUMPTIONS = ["stored rows are read through the documented public `buffer` mapping and len()",
                "SimEnv ignores actions (bookkeeping properties do not depend on closed-loop dynamics)"]
-TIERS = {"quick": {"runs": 90}, "thorough": {"runs": 1500}}
+TIERS = {"quick": {"runs": 160}, "thorough": {"runs": 2000}}
 REQUIRED = ["multitask_rows_checked", "multitask_several_task_buffers", "datasets_checked", "dataset_with_several_episodes", "parallel_environments", "stored_rows_checked", "stored_first_transition_after_reset", "acting_on_current_obs", "capacity_smaller_than_run", "one_step_episode"]
 REQUIRED_QUICK = REQUIRED
 CHUNK = 24  # TrainSim plans per fresh worker process
